@@ -1283,6 +1283,8 @@ def ev_checkpoint(w, ev):
     w.probes.hit("checkpoint_" + ev.get("sink", "seekable"))
     for o in w.oracles:
         o.on_checkpoint(w, deck, img, ev)
+    import copy
+    deck.memo_saved = copy.deepcopy(deck.memo)
     return "ok"
 
 
@@ -1315,8 +1317,8 @@ def ev_fork(w, ev):
     src = w.deck(ev.get("deck", 0))
     d = Deck(len(w.decks))
     d.image = d.start_image = src.image
-    for k, v in src.memo.items():
-        d.memo[k] = v
+    import copy
+    d.memo_saved = copy.deepcopy(src.memo_saved)
     w.decks.append(d)
     w.open_deck(d, "stream")
     w.probes.hit("fork")
